@@ -1098,7 +1098,7 @@ def _class_functions(tree: ast.Module) -> dict[str, list[ast.FunctionDef]]:
     templates: dict[str, str] = {}
     for n in tree.body:
         if isinstance(n, ast.Assign) and len(n.targets) == 1 and isinstance(n.targets[0], ast.Name) \
-                and isinstance(n.value, ast.Constant) and isinstance(n.value.value, str) and n.targets[0].id.endswith('_TEMP'):
+                and isinstance(n.value, ast.Constant) and isinstance(n.value.value, str) and 'def ' in n.value.value:      # whatever it is called
             templates[n.targets[0].id] = n.value.value
     res: dict[str, list[ast.FunctionDef]] = {}
     for c in tree.body:
